@@ -52,11 +52,12 @@ def main(argv):
     rng = ck.rng
     stats = dict(problems=0, subsets=0, selection_sequences=0, worst_additivity_error=0.0, worst_geometry_error=0.0, worst_energy_identity_error=0.0,
                  contours=0, by_physics={})
-    plan = [("e", False), ("e", True), ("h", False), ("m", False), ("m", True), ("h", True)]
+    plan = [("e", False, False), ("e", True, False), ("h", False, False), ("m", False, False), ("m", True, False), ("h", True, False),
+            ("m", False, True), ("m", True, True)]      # last two: time-harmonic magnetics (additivity, geometry; no static energy identity)
     if ck.tier == "thorough":
         plan = plan * 6
     try:
-        for t, (kind, axi) in enumerate(plan):
+        for t, (kind, axi, harm) in enumerate(plan):
             p = gen.gen_rects(kind, rng, units=rng.choice(["millimeters", "centimeters", "inches", "meters"]))
             p.ptype = "axi" if axi else "planar"
             p.smartmesh = 0
@@ -119,6 +120,14 @@ def main(argv):
                 for lab in p.labels:
                     if lab["circ"] >= 0 and p.circprops[lab["circ"]]["type"] == 0:
                         lab["turns"] = 1
+                if harm:
+                    p.freq = rng.choice([50.0, 400.0])
+                    stats["harmonic_magnetics_problems"] = stats.get("harmonic_magnetics_problems", 0) + 1
+                    for m in p.blockprops:
+                        m.pop("LamType", None); m.pop("LamFill", None)       # on-edge laminations are refused in AC problems
+                        m["Sigma"] = m.get("Sigma", rng.choice([0.0, 1.0, 10.0]))
+                        if rng.random() < 0.3:
+                            m["J_im"] = rng.choice([0.5, -1.0])
             run = Run(build, work, "p%d" % t, p)
             stats["problems"] += 1
             stats["by_physics"][kind] = stats["by_physics"].get(kind, 0) + 1
@@ -127,7 +136,7 @@ def main(argv):
             if run.mesh() != 0 or run.solve() != 0:
                 ck.violation("tool-failed:" + kind, "mesher/solver failed: " + (run.mesh_out + run.solve_out)[-300:], dict(files=run.files()))
                 continue
-            types = TYPES[kind]
+            types = dict(TYPES[kind], lamination_losses=3) if harm else TYPES[kind]
             nl = len(p.labels)
             pts = [(l["x"], l["y"]) for l in p.labels]
             s = lua_post.Session(kind, "p" + femmio.EXT[kind], analyze=False)
@@ -215,21 +224,19 @@ def main(argv):
                     parts = [per[name][l] for l in range(nl) if sel[l]]
                     if got is None or any(v is None for v in parts):
                         continue
-                    if isinstance(got, complex):
-                        got = got.real
-                    want = sum(v.real if isinstance(v, complex) else v for v in parts)
+                    want = sum(parts)          # (complex for time-harmonic magnetics: both parts must add up)
                     sc = max(sum(abs(v) for v in per[name] if v is not None), 1e-300)
                     err = abs(got - want) / sc
                     stats["subsets"] += 1
                     if name.endswith("losses") and abs(got) > 0:
                         stats["nonzero_loss_integrals"] = stats.get("nonzero_loss_integrals", 0) + 1
                     stats["worst_additivity_error"] = max(stats["worst_additivity_error"], err)
-                    if err > 1e-9:
+                    if not (err <= 1e-9):
                         # is it the selection (model) or the additivity (property) that fails?  try every subset
                         key = "additivity:%s:%s" % (kind, name)
                         ck.obligation_broken("correspondence postint: selection state after a sequence differs from Model/PostInt.lean (or the integral is not additive)",
                                              dict(sequence=seq, model_selected=[l for l in range(nl) if sel[l]], quantity=name, got=got, expected=want))
-                        ck.violation(key, "%s integral after the selection sequence %s is %.12g, the sum over the selected labels %s is %.12g"
+                        ck.violation(key, "%s integral after the selection sequence %s is %s, the sum over the selected labels %s is %s"
                                      % (name, seq, got, [l for l in range(nl) if sel[l]], want), dict(files=run.files(), sequence=seq, physics=kind))
                         break
             # ---- stage B (electrostatics): the integrals themselves vs the integrand model Model/PostIntE.lean summed over the elements of
@@ -332,7 +339,7 @@ def main(argv):
                     if err > 1e-6:
                         ck.violation("energy-vs-terminals:e", "stored energy %.9g J, half the sum of conductor voltage x charge %.9g J (%s)" % (W_all, half, p.ptype),
                                      dict(files=run.files()))
-            if kind == "m":
+            if kind == "m" and not harm:
                 W_all = sum(v.real if isinstance(v, complex) else v for v in per["energy"] if v is not None)
                 AJ = sum(v.real if isinstance(v, complex) else v for v in per["AJ"] if v is not None)
                 Wc = sum(v.real if isinstance(v, complex) else v for v in per["coenergy"] if v is not None)
